@@ -31,6 +31,8 @@ var imports = map[string][]imp{
 		Why: "the breaker's history is a RollingWindow: its lock discipline and bucket-exact advance/expiry/reduce formulas (C09-D1) are necessary for 'outcomes over the trailing 10 s'"}},
 	"C06": {{From: "C18", Prefix: "SF/", Keep: func(k string) bool { return strings.HasSuffix(k, "flightGroup") },
 		Why: "'at most one DB query at a time' rests on syncx.SingleFlight (C18 flight-group rules)"}},
+	"C08": {{From: "C12", Prefix: "RD/", Keep: func(k string) bool { return k == "D2/K6/acceptable-set" },
+		Why: "the limiters run their scripts through the Redis wrapper's breaker: a redis.Nil reply (every refused take) must stay a benign outcome, or sustained refusals trip the breaker and the token limiter falls back to its full in-process bucket (C12 acceptable-set rule)"}},
 	"C17": {{From: "C18", Prefix: "SF/", Keep: func(k string) bool { return strings.HasSuffix(k, "flightGroup") },
 		Why: "Take's single flight rests on syncx.SingleFlight (C18 flight-group rules)"},
 		{From: "C10", Prefix: "TW/", Keep: func(k string) bool { return true },
